@@ -398,3 +398,42 @@ Proof.
     rewrite ?w64_idem; try assumption.
   exists p. rewrite w64_idem in F, R1, R2. repeat split; assumption.
 Qed.
+
+(* a buffer handed to the back end's grant / deny primitive was range-checked first *)
+Lemma grant_or_copy_checked g l s total src num elsz succ mret fp :
+  grant_or_copy g l s total src num elsz succ mret = Ok (true, fp) ->
+  check_range g l src (w64 (num * elsz)) = Ok tt /\ succ = true /\ fp = [].
+Proof.
+  unfold grant_or_copy. destruct (check_range g l src (w64 (num * elsz))) as [[]| | |] eqn:C; cbn [bind]; try discriminate.
+  destruct succ.
+  - intros H. inversion H. auto.
+  - destruct (copy_or_grant g l s total src num elsz mret); cbn [bind]; intros H; inversion H.
+Qed.
+Lemma deny_or_copy_checked g l src num elsz succ fp :
+  deny_or_copy g l src num elsz succ = Ok (true, fp) ->
+  check_range g l src (w64 (num * elsz)) = Ok tt /\ succ = true /\ fp = [].
+Proof.
+  unfold deny_or_copy. destruct (check_range g l src (w64 (num * elsz))) as [[]| | |] eqn:C; cbn [bind]; try discriminate.
+  destruct succ.
+  - intros H. inversion H. auto.
+  - destruct (copy_or_deny g l src num elsz); cbn [bind]; intros H; inversion H.
+Qed.
+
+Lemma granted_range_good g l s total src num elsz succ mret fp :
+  world_ok l -> (forall r, In r l -> w64 (num * elsz) <= rsize r) ->
+  0 < w64 (num * elsz) -> 0 <= src -> src + w64 (num * elsz) <= M64 ->
+  grant_or_copy g l s total src num elsz succ mret = Ok (true, fp) ->
+  range_good l src (w64 (num * elsz)) = true.
+Proof.
+  intros W U P S E H. apply grant_or_copy_checked in H as (C & _ & _).
+  exact (check_range_sound g l src (w64 (num * elsz)) W U P S E C).
+Qed.
+Lemma denied_range_good g l src num elsz succ fp :
+  world_ok l -> (forall r, In r l -> w64 (num * elsz) <= rsize r) ->
+  0 < w64 (num * elsz) -> 0 <= src -> src + w64 (num * elsz) <= M64 ->
+  deny_or_copy g l src num elsz succ = Ok (true, fp) ->
+  range_good l src (w64 (num * elsz)) = true.
+Proof.
+  intros W U P S E H. apply deny_or_copy_checked in H as (C & _ & _).
+  exact (check_range_sound g l src (w64 (num * elsz)) W U P S E C).
+Qed.
